@@ -3,7 +3,7 @@ import json
 import os
 from concurrent.futures import ThreadPoolExecutor
 
-from .. import common, cxxmodel, cxxrun, exprdoc, gen_expr as ge
+from .. import regen, common, cxxmodel, cxxrun, exprdoc, gen_expr as ge
 
 
 def translate_docs(docs, tag, want=("ui", "header")):
@@ -240,8 +240,16 @@ def run(tier, seed, replay=None):
                      "Qt API model generated from the same metatypes (cxx/qtmodel_rt.h + qv/cxxmodel.py) is the execution platform",
                      "excluded: enum/flag bit operations at run time, QString::arg beyond %1..%99, more than one side-effecting call per expression"]
     n_regen = regenerated_code_is_current(v, rng) if not replay else 0
+    # the code on disk is the code of the CURRENT expressions (edits that leave the .ui byte-identical)
+    _w = regen.HEAD + "QWidget {\n    QCheckBox { id: sel }\n    QLineEdit { id: e1 }\n    QLineEdit { id: e2 }\n%s}\n"
+    n_hist = 0 if replay else regen.regenerated_equals_fresh(v, "c01hist", [
+        (_w % "    QLabel { text: e1.text + \"a\" }\n", _w % "    QLabel { text: e2.text + \"b\" }\n"),
+        (_w % "    QLabel { enabled: sel.checked && e1.text == \"x\" }\n", _w % "    QLabel { enabled: sel.checked || e1.text != \"x\" }\n"),
+        (_w % "    QSpinBox { value: sel.checked ? 1 : 2 }\n", _w % "    QSpinBox { value: { let n = e1.text == e2.text ? 3 : 4; return n * 2 } }\n"),
+        (_w % "    QLabel { text: e1.text }\n", _w % "    QLabel { text: e1.text }\n    QLabel { text: e2.text }\n"),
+    ], "stale-code-after-expression-edit", "binding expressions edited")
     return v.finish(
-        evaluations=n_pairs + n_regen, distinct_nontrivial=len(distinct),
+        histories_on_disk=n_hist, evaluations=n_pairs + n_regen, distinct_nontrivial=len(distinct),
         rule="type-directed random programs (expressions and statement blocks with let/const/shadowing, if/else, switch with default "
              "in any position, fall-through, break under if, early return, completion values) bound to properties of every result "
              "type, executed in 24 boundary-biased states each; distinct non-trivial = distinct program text with >= 2 different "
